@@ -28,7 +28,8 @@ if ALT_REPO:
         shutil.rmtree(dst, ignore_errors=True)
         shutil.copytree(os.path.join(VERIF, sub), dst, ignore=shutil.ignore_patterns("target"))
         ct = os.path.join(dst, "Cargo.toml")
-        open(ct, "w").write(open(ct).read().replace('path = "/repo"', f'path = "{ALT_REPO}"'))
+        txt = open(ct).read().replace('path = "/repo"', f'path = "{ALT_REPO}"')
+        open(ct, "w").write(txt)
     HARNESS = os.path.join(ALT, "harness")
     TARGET = os.path.join(ALT, "target")
     WORK = os.path.join(ALT, "work")
